@@ -81,6 +81,33 @@ func RecOf(tok *onet.Token) *Rec {
 	return recs[tok.ID().String()]
 }
 
+// DoneAll declares every recorded instance done (so that closing a cluster
+// does not wait for lingering instances) and forgets the recorders.
+func DoneAll() {
+	recMu.Lock()
+	var l []*Rec
+	for _, r := range recs {
+		l = append(l, r)
+	}
+	recs = map[string]*Rec{}
+	Constructed = map[string]int{}
+	recMu.Unlock()
+	for _, r := range l {
+		r.Tni.Done()
+	}
+}
+
+// AllRecs returns the recorders by token id.
+func AllRecs() map[string]*Rec {
+	recMu.Lock()
+	defer recMu.Unlock()
+	m := map[string]*Rec{}
+	for k, v := range recs {
+		m[k] = v
+	}
+	return m
+}
+
 // ResetRecs forgets all recorders.
 func ResetRecs() {
 	recMu.Lock()
@@ -219,6 +246,12 @@ func Payload(ty, v int) interface{} {
 		return &MSync{v}
 	}
 	panic(fmt.Sprint("no such message type ", ty))
+}
+
+// TokenKey renders every field of a token (independent of Token.ID, so that a
+// defect in the id derivation cannot hide a mix-up of instances).
+func TokenKey(t *onet.Token) string {
+	return fmt.Sprintf("%s/%s/%s/%s/%s/%s", t.RosterID, t.TreeID, t.ProtoID, t.ServiceID, t.RoundID, t.TreeNodeID)
 }
 
 // TokenFor builds the token of node tn in a run of the recording protocol.
